@@ -14,6 +14,10 @@ from core import *
 NEEDS = ["DDE", "DDEProofs", "History", "HistoryProofs", "Corr"]
 VARPOOL = ["x", "z", "v", "u", "r", "a", "w", "s", "g", "m"]
 GUARDS = ["edge_delay_above_step", "delays_uniform"]
+# MODEL SWITCH for finding C10-F5: False = the code reads a per-node delay parameter at unit 0 (Impl = DDE.vimpl_eval);
+# True = /verif/fixes/proposed_fix_C10_F5.diff is applied: compilation raises PyRatesException when the entries of a delay
+# vector differ (Impl = DDE.vimpl_eval_checked, i.e. rejected exactly outside the guard, C10_vec_after_fix)
+VEC_NONUNIFORM_RAISES = False
 
 # ---------------------------------------------------------------------------------------------- impl side (worker)
 def _dec(q):
@@ -95,7 +99,12 @@ def _impl_vec(case, dt):
     variables.update({p: float(Fr(val)) for p, val in zip(P, case["parinit"])})
     op = OperatorTemplate(name="op1", path=None, equations=equation_strings(case), variables=variables)
     # the per-node initial value of the first variable reveals the order of the units in the merged vectors
-    nodes = {f"N{i}": NodeTemplate(name="n1", path=None, operators={op: {V[0]: float(i + 1)}}) for i in range(n)}
+    def overrides(i):
+        o = {V[0]: float(i + 1)}
+        for j, row in enumerate(case.get("parinit_units") or []):
+            o[P[j]] = float(Fr(row[i]))
+        return o
+    nodes = {f"N{i}": NodeTemplate(name="n1", path=None, operators={op: overrides(i)}) for i in range(n)}
     c = CircuitTemplate(name="c", path=None, nodes=nodes)
     try:
         with contextlib.redirect_stdout(io.StringIO()):
@@ -507,6 +516,12 @@ def gen_vec(rng, f5_class=False):
         pts.append(dict(t=p["t"], y=[str(Fr(rng.randint(-16, 16), 4)) for _ in range(nv * n)], par=par,
                         hist=[[str(Fr(rng.randint(-8, 8), 4)), str(Fr(rng.randint(-4, 4), 2)), str(rng.randint(-2, 2))] for _ in range(nv * n)]))
     if f5_class:
+        # the delay parameters differ between the nodes already at compile time (node-level values); all points use that table
+        for p in pts[1:]:
+            p["par"] = pts[0]["par"]
+        if not any(len(set(pts[0]["par"][j])) > 1 for j in dps) and dps:
+            pts[0]["par"][dps[0]][0] = str(Fr(pts[0]["par"][dps[0]][0]) + Fr(1, 8))
+        case["parinit_units"] = pts[0]["par"]
         used = {f[2][1] for r in case["eqs"] for _, fs in r for f in fs if f[0] == "past" and f[2][0] == "par"}
         if not used and dps:
             case["eqs"][0] = case["eqs"][0] + [["1/2", [["past", 0, ["par", dps[0]], 0]]]]
@@ -812,7 +827,7 @@ def check(ctx):
         cases += [gen_run(ctx.rng) for _ in range(nr)] + [gen_long_run(ctx.rng) for _ in range(1 if ctx.tier == "quick" else 4)]
         cases += [gen_adapt(ctx.rng) for _ in range(6 if ctx.tier == "quick" else 60)]
         cases += [gen_vec(ctx.rng) for _ in range(16 if ctx.tier == "quick" else 200)]
-        if GUARDS[1] in findings:
+        if GUARDS[1] in findings or VEC_NONUNIFORM_RAISES:
             cases += [gen_vec(ctx.rng, f5_class=True) for _ in range(6 if ctx.tier == "quick" else 60)]
         # guard-violating stream, built on purpose from the refuted witness, only for the listed finding
         if GUARDS[0] in findings:
@@ -821,6 +836,15 @@ def check(ctx):
     outs = [o if isinstance(o, dict) else {"err": "bad-result", "detail": str(o)[:200]} for o in outs]
     crashed = [i for i, r in enumerate(outs) if "out" not in r]
     badI, badS, gv = model_compare(ctx, cases, outs, "main")
+    if VEC_NONUNIFORM_RAISES:
+        for i in [i for i, g in gv.items() if GUARDS[1] in g]:
+            gv.pop(i)
+            rejected = outs[i].get("err") == "raised" and outs[i].get("type") == "PyRatesException" and outs[i].get("stage") == "compile"
+            if rejected:
+                crashed = [j for j in crashed if j != i]          # Impl = rejected, and the code rejects
+            elif i not in crashed and i not in badS:
+                badS.append(i)                                     # the code accepted a model it must reject
+            badI = [j for j in badI if j != i] + ([] if rejected else [i])
     kinds = {k: sum(1 for c in cases if c["kind"] == k) for k in ("func", "edge", "run", "adapt", "vec")}
     ctx.note(f"E1: {len(cases)} models {kinds}, {sum(len(c.get('points', [])) for c in cases)} function evaluations, "
              f"{sum(c.get('steps', 0) for c in cases)} Euler steps; impl-vs-Impl mismatches {len(badI)}, impl-vs-Spec mismatches {len(badS)}, "
